@@ -833,4 +833,15 @@ def extract_default(""")]),
     dict(id="cli2-listified-file-lists", kind=N, props=["C09", "C20"], expect="silent", edits=[("__main__.py",
          """                k: v if k == "truth" or isinstance(v, list) or v is None else [v]""",
          """                k: v if k == "truth" or v is None else (list(v) if isinstance(v, (list, tuple)) else [v])""")]),
+    dict(id="kwarglast-no-pop", kind=B, props=["C07", "C03"], expect="KWARG-LAST", edits=[("parse.py",
+         """        _param = intermediate_repr["params"].pop(function_def.args.kwarg.arg)""",
+         """        _param = intermediate_repr["params"][function_def.args.kwarg.arg]""")]),
+    dict(id="kwarglast-move-to-end-after-merge", kind=N, props=["C07", "C03"], expect="silent", edits=[("parse.py",
+         """        _param = intermediate_repr["params"].pop(function_def.args.kwarg.arg)""",
+         """        _param = intermediate_repr["params"][function_def.args.kwarg.arg]"""), ("parse.py",
+         """    intermediate_repr["params"].update(params_to_append)
+""", """    intermediate_repr["params"].update(params_to_append)
+    for kwarg_name in params_to_append:
+        intermediate_repr["params"].move_to_end(kwarg_name)
+""")]),
 ]
